@@ -72,6 +72,15 @@ type MHist struct {
 // RunMPTHistory executes one history on one configuration and emits its trace.
 func RunMPTHistory(w *tr.Writer, in *tr.Interner, st *MPTStats, tid int, cfgIdx int, cfg MPTConfig, h MHist, shapeEvery int) {
 	ops := h.Ops
+	if len(cfg.Init) > 0 && cfg.InitVer != cfg.Version {
+		// over lower content of an older version the history ends by deleting that content key by key (rotating start):
+		// every collapse / lift / merge then involves nodes that were created at another version and live in the lower store
+		ops = append([]MOp(nil), ops...)
+		for i := range cfg.Init {
+			kv := cfg.Init[(i+tid)%len(cfg.Init)]
+			ops = append(ops, MOp{Op: "del", P: bridge.Chars([]byte(kv[0]))})
+		}
+	}
 	w.NextTrace()
 	st.Traces++
 	env := NewTrieEnv(cfg.Store, cfg.Version)
@@ -162,7 +171,13 @@ func RunMPTHistory(w *tr.Writer, in *tr.Interner, st *MPTStats, tid int, cfgIdx 
 	observe(ev, nil, true)
 	w.Emit(ev)
 	st.Events++
+	// over older lower content every operation runs on a fresh trie object (cold node cache), as a new block's trie
+	// does: nodes are then fetched from the stores themselves, not from copies the observation left in the cache
+	cold := len(cfg.Init) > 0 && cfg.InitVer != cfg.Version
 	for i, op := range ops {
+		if cold {
+			env.Trie = util.NewMerklePatriciaTrie(env.DB, util.Sequence(cfg.Version), env.Trie.GetRoot(), NewTxnCache())
+		}
 		p := joinChars(op.P)
 		ev := map[string]any{"tid": tid, "op": op.Op, "p": bridge.Chars(p), "v": op.V}
 		var retRoot util.Key
